@@ -246,4 +246,22 @@ distinct = distinct query lines."
         }
         tree_case(w, &a, &b, &z, rng.coin(3, 4), "random");
     }
+    // 5. WIDE maps (tens to hundreds of paths, most on both sides): whatever the whole-tree function does with the union of keys
+    // (sorting, de-duplication, merging) behaves differently above the small-input fast paths of the library routines it uses
+    let wide = if thorough { 400 } else { 60 };
+    for i in 0..wide {
+        let n_ = if i < 70 { i + 1 } else { rng.range(70, 1200) as usize };
+        let (mut a, mut b, mut z) = (FpMap::new(), FpMap::new(), FpMap::new());
+        for k in 0..n_ {
+            let nme = format!("d{}/f{:04}{}", k % 7, k, if k % 11 == 0 { ".x" } else { "" });
+            let base = mk(rng.below(3) as u8, 0);
+            let both = rng.coin(5, 6);
+            let fa = if rng.coin(3, 4) { base } else { mk(rng.below(4) as u8, rng.below(2) as u8) };
+            let fb = if rng.coin(3, 4) { base } else { mk(rng.below(4) as u8, rng.below(2) as u8) };
+            if both || rng.coin(1, 2) { a.insert(PathBuf::from(&nme), fa); }
+            if both || !a.contains_key(&PathBuf::from(&nme)) { b.insert(PathBuf::from(&nme), fb); }
+            if rng.coin(3, 4) { z.insert(PathBuf::from(&nme), base); }
+        }
+        tree_case(w, &a, &b, &z, i % 4 != 3, "wide");
+    }
 }
